@@ -41,6 +41,10 @@ pub enum Framing {
     Chunked,
     /// `Content-Length: <len>` only; `pieces` are the sizes of the separate TCP writes of the body
     LengthOnly,
+    /// HTTP/2 (prior knowledge, hyper client): `pieces` are the sizes of the DATA frames handed to the client
+    /// connection; `cl_before` empty = no content-length header (the body is delimited by END_STREAM),
+    /// `cl_before == [len]` = the length is announced
+    H2,
 }
 
 #[derive(Debug, Clone)]
@@ -66,7 +70,7 @@ impl CaseB {
             "limit": match self.limit { Some(n) => json!(n), None => json!("off") },
             "family": self.family,
             "body_hex": hex(&self.body),
-            "framing": match self.framing { Framing::Chunked => "chunked", Framing::LengthOnly => "content-length-only" },
+            "framing": match self.framing { Framing::Chunked => "chunked", Framing::LengthOnly => "content-length-only", Framing::H2 => "h2" },
             "pieces": self.pieces,
             "trailers": self.trailers,
             "content_length_label": self.cl_label,
@@ -92,7 +96,7 @@ impl CaseB {
             limit: v.get("limit").and_then(|x| x.as_u64()),
             family: s("family"),
             body: unhex(&s("body_hex")),
-            framing: if s("framing") == "chunked" { Framing::Chunked } else { Framing::LengthOnly },
+            framing: match s("framing").as_str() { "chunked" => Framing::Chunked, "h2" => Framing::H2, _ => Framing::LengthOnly },
             pieces: v
                 .get("pieces")
                 .and_then(|x| x.as_array())
@@ -151,7 +155,7 @@ impl CaseB {
                     p.extend_from_slice(b"\r\n");
                     out.push(p);
                 }
-                Framing::LengthOnly => out.push(data.to_vec()),
+                Framing::LengthOnly | Framing::H2 => out.push(data.to_vec()),
             }
         }
         if off != self.body.len() {
@@ -256,7 +260,90 @@ pub struct RunB {
     pub attempts: usize,
 }
 
+/// A request body made of the given DATA frames; the exact size is announced (=> content-length header) or not.
+struct FramesBody {
+    frames: std::collections::VecDeque<bytes::Bytes>,
+    announce: Option<u64>,
+}
+
+impl hyper::body::Body for FramesBody {
+    type Data = bytes::Bytes;
+    type Error = std::convert::Infallible;
+    fn poll_frame(
+        mut self: std::pin::Pin<&mut Self>,
+        _cx: &mut std::task::Context<'_>,
+    ) -> std::task::Poll<Option<Result<hyper::body::Frame<Self::Data>, Self::Error>>> {
+        std::task::Poll::Ready(self.frames.pop_front().map(|b| Ok(hyper::body::Frame::data(b))))
+    }
+    fn is_end_stream(&self) -> bool {
+        self.frames.is_empty()
+    }
+    fn size_hint(&self) -> hyper::body::SizeHint {
+        match self.announce {
+            Some(n) => hyper::body::SizeHint::with_exact(n),
+            None => hyper::body::SizeHint::default(),
+        }
+    }
+}
+
+thread_local! {
+    static H2_RT: tokio::runtime::Runtime = tokio::runtime::Builder::new_current_thread().enable_all().build()
+        .unwrap_or_else(|e| verif_common::machinery_error(&format!("cannot build the HTTP/2 client runtime: {e}")));
+}
+
+/// One request over HTTP/2 with prior knowledge; the answer is re-rendered as an HTTP/1.1 response so that the rest
+/// of Part B (parse_response, the handler's text protocol) is shared.
+fn exchange_h2(addr: SocketAddr, case: &CaseB) -> Result<Vec<u8>, String> {
+    use http_body_util::BodyExt;
+    let mut frames = std::collections::VecDeque::new();
+    let mut off = 0;
+    for &k in &case.pieces {
+        frames.push_back(bytes::Bytes::copy_from_slice(&case.body[off..off + k]));
+        off += k;
+    }
+    let announce = case.cl_before.first().and_then(|v| v.parse::<u64>().ok());
+    let limit = match case.limit {
+        Some(n) => n.to_string(),
+        None => "off".into(),
+    };
+    H2_RT.with(|rt| {
+        rt.block_on(async {
+            let stream = tokio::net::TcpStream::connect(addr).await.map_err(|e| format!("connect: {e}"))?;
+            let io = hyper_util::rt::TokioIo::new(stream);
+            let (mut sender, conn) = hyper::client::conn::http2::handshake(hyper_util::rt::TokioExecutor::new(), io)
+                .await
+                .map_err(|e| format!("h2 handshake: {e}"))?;
+            let conn_task = tokio::spawn(conn);
+            let req = http::Request::builder()
+                .method("POST")
+                .uri(format!("http://{addr}/c14"))
+                .header("x-verif-limit", limit)
+                .body(FramesBody { frames, announce })
+                .map_err(|e| format!("request: {e}"))?;
+            let resp = tokio::time::timeout(Duration::from_secs(10), sender.send_request(req))
+                .await
+                .map_err(|_| "h2 request timed out".to_string())?
+                .map_err(|e| format!("h2 send: {e:?}"))?;
+            let status = resp.status().as_u16();
+            let marker = resp.headers().get("x-verif").map(|v| v == "1").unwrap_or(false);
+            let body = tokio::time::timeout(Duration::from_secs(10), resp.into_body().collect())
+                .await
+                .map_err(|_| "h2 response body timed out".to_string())?
+                .map_err(|e| format!("h2 body: {e:?}"))?
+                .to_bytes();
+            drop(sender);
+            conn_task.abort();
+            let mut raw = format!("HTTP/1.1 {status} X\r\n{}content-length: {}\r\n\r\n", if marker { "x-verif: 1\r\n" } else { "" }, body.len()).into_bytes();
+            raw.extend_from_slice(&body);
+            Ok(raw)
+        })
+    })
+}
+
 fn exchange(addr: SocketAddr, case: &CaseB) -> Result<Vec<u8>, String> {
+    if case.framing == Framing::H2 {
+        return exchange_h2(addr, case);
+    }
     let mut s = std::net::TcpStream::connect(addr).map_err(|e| format!("connect: {e}"))?;
     s.set_read_timeout(Some(Duration::from_secs(10))).ok();
     s.set_write_timeout(Some(Duration::from_secs(10))).ok();
@@ -449,6 +536,156 @@ pub struct AccB {
     pub transport_rejects: u64,
     pub disabled_cases: u64,
     pub head_samples: Vec<Value>,
+    pub history_dependent_unattributed: u64,
+}
+
+// ---------------------------------------------------------------------------------------------
+// Part B2: request SEQUENCES on one worker. Every ordered pair (first, second) over the chunked
+// bodies of one limit, `first` sent completely or abandoned (connection closed after the head and
+// the first chunk); each pair is served by a FRESH server with one worker, so the pair is the whole
+// history of that worker thread. `second` is judged by the oracle of Part B.
+
+#[derive(Default)]
+pub struct AccB2 {
+    pub cases: usize,
+    pub pairs: u64,
+    pub abandoned_firsts: u64,
+    pub violations: BTreeMap<String, (usize, String, Value)>,
+}
+
+fn exchange_abandoned(addr: SocketAddr, case: &CaseB, n_pieces: usize) {
+    if let Ok(mut s) = std::net::TcpStream::connect(addr) {
+        s.set_nodelay(true).ok();
+        for p in case.wire_pieces().iter().take(n_pieces) {
+            if !p.is_empty() && s.write_all(p).is_err() {
+                break;
+            }
+            let _ = s.flush();
+        }
+        std::thread::sleep(Duration::from_millis(15));
+        drop(s);
+        std::thread::sleep(Duration::from_millis(15));
+    }
+}
+
+fn pair_on_fresh_server(first: &CaseB, abandoned: bool, second: &CaseB) -> (RunB, Vec<(String, String)>) {
+    let server = TestServer::start(1, 1);
+    let addr = server.addrs[0];
+    if abandoned {
+        exchange_abandoned(addr, first, 2);
+    } else {
+        let _ = run_case(addr, first);
+    }
+    let run = run_case(addr, second);
+    let v = check(second, &run);
+    server.stop();
+    (run, v)
+}
+
+pub fn run_sequences(b: &BoundsB, threads: usize, quick: bool) -> AccB2 {
+    let limit = 3u64.min(b.max_n);
+    let cases: Vec<CaseB> = enumerate(b)
+        .into_iter()
+        .filter(|c| {
+            c.limit == Some(limit) && matches!(c.framing, Framing::Chunked) && c.cl_before.is_empty() && c.cl_after.is_empty() && !c.trailers
+                && matches!(c.write_mode, WriteMode::PerPiece) && c.family == b.families[0]
+                // quick: the empty body, and the bodies of length N and N+1 in one chunk, 1 + rest, rest + 1
+                && (!quick
+                    || c.body.is_empty()
+                    || ((c.body.len() as u64 == limit || c.body.len() as u64 == limit + 1)
+                        && (c.pieces.len() == 1 || (c.pieces.len() == 2 && (c.pieces[0] == 1 || c.pieces[1] == 1)))))
+        })
+        .collect();
+    let n = cases.len();
+    let next = AtomicUsize::new(0);
+    let mut total = AccB2 { cases: n, ..Default::default() };
+    std::thread::scope(|s| {
+        let handles: Vec<_> = (0..threads.max(1))
+            .map(|_| {
+                s.spawn(|| {
+                    let mut acc = AccB2::default();
+                    loop {
+                        let i = next.fetch_add(1, Ordering::SeqCst);
+                        if i >= n * 2 {
+                            break;
+                        }
+                        let (first, abandoned) = (&cases[i / 2], i % 2 == 1);
+                        if abandoned && first.pieces.is_empty() {
+                            continue;
+                        }
+                        if abandoned {
+                            acc.abandoned_firsts += 1;
+                        }
+                        for second in &cases {
+                            let (run, viol) = pair_on_fresh_server(first, abandoned, second);
+                            acc.pairs += 1;
+                            if viol.is_empty() {
+                                continue;
+                            }
+                            let mut reproduced = None;
+                            for _ in 0..3 {
+                                let (run2, viol2) = pair_on_fresh_server(first, abandoned, second);
+                                if viol2.iter().map(|x| &x.0).eq(viol.iter().map(|x| &x.0)) {
+                                    reproduced = Some(run2);
+                                    break;
+                                }
+                            }
+                            let Some(run2) = reproduced else {
+                                verif_common::machinery_error(&format!(
+                                    "nondeterministic verdict for request sequence first={} abandoned={abandoned} second={} observed={}",
+                                    first.to_json(), second.to_json(), run.outcome.to_json()
+                                ));
+                            };
+                            let order = first.body.len() + first.pieces.len() + second.body.len() + second.pieces.len() + abandoned as usize;
+                            for (key, what) in viol {
+                                let key = format!("history:{key}");
+                                if acc.violations.get(&key).is_none_or(|cur| cur.0 > order) {
+                                    acc.violations.insert(
+                                        key,
+                                        (order,
+                                         format!("second request served by a worker that had served one request before ({}; {} bytes in chunks {:?}): {what}; second request chunks {:?}",
+                                                 if abandoned { "abandoned after its first chunk" } else { "sent completely" }, first.body.len(), first.pieces, second.pieces),
+                                         json!({"case": {"part": "B2", "first": first.to_json(), "first_abandoned": abandoned, "second": second.to_json()},
+                                                "observed": run2.outcome.to_json()})),
+                                    );
+                                }
+                            }
+                        }
+                    }
+                    acc
+                })
+            })
+            .collect();
+        for h in handles {
+            match h.join() {
+                Ok(a) => {
+                    total.pairs += a.pairs;
+                    total.abandoned_firsts += a.abandoned_firsts;
+                    for (k, v) in a.violations {
+                        if total.violations.get(&k).is_none_or(|cur| cur.0 > v.0) {
+                            total.violations.insert(k, v);
+                        }
+                    }
+                }
+                Err(_) => verif_common::machinery_error("a Part B2 worker thread panicked (harness bug)"),
+            }
+        }
+    });
+    total
+}
+
+pub fn replay_sequence(v: &Value) -> bool {
+    let first = CaseB::from_json(v.get("first").unwrap_or_else(|| verif_common::machinery_error("sequence replay lacks `first`")));
+    let second = CaseB::from_json(v.get("second").unwrap_or_else(|| verif_common::machinery_error("sequence replay lacks `second`")));
+    let abandoned = v.get("first_abandoned").and_then(|x| x.as_bool()).unwrap_or(false);
+    let (run, viol) = pair_on_fresh_server(&first, abandoned, &second);
+    println!("first: {} abandoned={abandoned}", first.to_json());
+    println!("second: {}", second.to_json());
+    println!("observed for second: {}", run.outcome.to_json());
+    for (k, w) in &viol {
+        println!("violated: {k}: {w}");
+    }
+    !viol.is_empty()
 }
 
 fn compositions(len: usize) -> Vec<Vec<usize>> {
@@ -502,6 +739,23 @@ pub fn enumerate(b: &BoundsB) -> Vec<CaseB> {
                                     cl_label: label.clone(),
                                     cl_before: before.clone(),
                                     cl_after: after.clone(),
+                                    write_mode,
+                                });
+                            }
+                        }
+                        // HTTP/2: the body is delimited by its DATA frames; the length is announced or not
+                        if matches!(write_mode, WriteMode::Single) && family == b.families[0] && limit.is_some() {
+                            for (label, before) in [("absent (h2)", vec![]), ("truthful (h2)", vec![l.to_string()])] {
+                                cases.push(CaseB {
+                                    limit,
+                                    family: family.to_string(),
+                                    body: body.clone(),
+                                    framing: Framing::H2,
+                                    pieces: pieces.clone(),
+                                    trailers: false,
+                                    cl_label: label.into(),
+                                    cl_before: before,
+                                    cl_after: vec![],
                                     write_mode,
                                 });
                             }
@@ -572,6 +826,12 @@ pub fn run(b: &BoundsB, seed: i64, threads: usize) -> AccB {
                             acc.violating_cases += 1;
                             let again = check(case, &run_case(addr, case));
                             if again.iter().map(|x| &x.0).ne(viol.iter().map(|x| &x.0)) {
+                                if crate::part_a::HISTORY_DEPENDENCE_KNOWN.load(Ordering::SeqCst) {
+                                    // the history dimension (Parts A2 / B2) has already shown with a replayable pair that
+                                    // requests served by one worker influence each other: one more manifestation
+                                    acc.history_dependent_unattributed += 1;
+                                    continue;
+                                }
                                 verif_common::machinery_error(&format!("nondeterministic verdict for loopback case {}", case.to_json()));
                             }
                             let vorder = (case.body.len() + case.pieces.len() + case.cl_before.len() + case.cl_after.len() + case.trailers as usize, i);
@@ -599,6 +859,7 @@ pub fn run(b: &BoundsB, seed: i64, threads: usize) -> AccB {
                     total.transport_retries += a.transport_retries;
                     total.transport_rejects += a.transport_rejects;
                     total.disabled_cases += a.disabled_cases;
+                    total.history_dependent_unattributed += a.history_dependent_unattributed;
                     total.head_samples.extend(a.head_samples);
                     for (k, v) in a.hist {
                         *total.hist.entry(k).or_default() += v;
